@@ -29,6 +29,7 @@ inductive SK
   | subroutine | subroutineBare | function | typedFunction
   | type | interface | interfaceAnon | absInterface | absGeneric | enum
   | variable | variableParen | use | callParen | callBare | other
+  | namelist | common | format | arithGoto
   deriving DecidableEq, Repr
 
 structure Stmt where
@@ -71,6 +72,10 @@ def matchRow : SK → List Branch
   | .callParen => [.call]
   | .callBare => [.call]
   | .other => []
+  | .namelist => [.namelist]
+  | .common => [.common]
+  | .format => [.format, .call]
+  | .arithGoto => [.arithgoto, .call]
 
 /-- messages of `print_error` -/
 inductive Rep
@@ -78,6 +83,7 @@ inductive Rep
   | unexpectedBlockData | unexpectedModule | unexpectedSubmodule | unexpectedProgram
   | multiplePrograms | unexpectedSubroutine | unexpectedFunction | unexpectedType
   | unexpectedInterface | unexpectedEnum | unexpectedVariable | unexpectedUse | unexpectedCall
+  | unexpectedNamelist | unexpectedCommon
   deriving DecidableEq, Repr
 
 /-- exceptions that leave the file's constructor -/
@@ -281,12 +287,18 @@ def step (cfg : Cfg) (st : MS) (s : Stmt) (last : Bool) : Except Raise MS :=
     | some .variable =>
       if hasAttr f.kind .variables then (if last then .error (.stopIteration, st.reps) else .ok st)
       else report cfg .unexpectedVariable st
+    | some .namelist =>   -- FortranNamelist(...): its constructor reads the doc comment that may follow
+      if hasAttr f.kind .namelists then (if last then .error (.stopIteration, st.reps) else .ok st)
+      else report cfg .unexpectedNamelist st
+    | some .common =>     -- FortranCommon(...), one per block
+      if hasAttr f.kind .common then (if last then .error (.stopIteration, st.reps) else .ok st)
+      else report cfg .unexpectedCommon st
     | some .use =>
       if hasAttr f.kind .uses then .ok st else report cfg .unexpectedUse st
     | some .call =>
       if s.kind == .callBare && !hasAttr f.kind .calls then report cfg .unexpectedCall st
       else .ok st
-    | some _ => .ok st   -- perm, sequence, format, namelist, boundproc, common, final, arithgoto: no nesting effect
+    | some _ => .ok st   -- perm, sequence, format, boundproc, final, arithgoto: no nesting effect
 
 /-- the whole statement loop: a left fold, one step per statement -/
 def run (cfg : Cfg) : MS → List Stmt → Except Raise MS
